@@ -132,6 +132,19 @@ def check_stack_like(ctx, rp, q, listname, first_wins_target):
             ctx.violation(Finding('R-STACKAXIS', rp, q, api.stmt_of(c), 'the concatenation axis %s is not the position of the stack dimension in this '
                                   "variable's dimensions" % norm(ax)))
         seq = c.args[0] if c.args else None
+        # the pieces are the data read from each file variable (var[:] / var[...] is a masked array for a disk-backed variable whose
+        # cells are missing); the variable objects themselves are converted to plain arrays and lose their masks
+        if isinstance(seq, ast.ListComp):
+            elt = seq.elt
+            reads = [n_ for n_ in ast.walk(elt) if isinstance(n_, ast.Subscript) and (isinstance(n_.slice, ast.Slice) or (isinstance(n_.slice, ast.Constant) and n_.slice.value is Ellipsis))
+                     and '.variables[' in norm(n_.value)]
+            objs = [n_ for n_ in ast.walk(elt) if isinstance(n_, ast.Subscript) and norm(n_.value).endswith('.variables')]
+            if objs and not reads:
+                ctx.violation(Finding('R-MACONCAT', rp, q, api.stmt_of(c), 'the variable objects themselves (%s) are handed to the concatenation instead of the data read from them '
+                                      '(var[:]): a disk-backed variable is then converted to a plain array and the cells that are missing in the file lose their mask' % norm(elt)),
+                              oid='%s:%d:pieces' % (q, c.lineno))
+            elif reads:
+                ctx.ok('R-MACONCAT', '%s:%d:pieces' % (q, c.lineno), where, 'pieces are %s' % norm(elt))
         nm = None
         if isinstance(seq, ast.ListComp) and len(seq.generators) == 1 and not seq.generators[0].ifs and isinstance(seq.generators[0].iter, ast.Name):
             nm = seq.generators[0].iter.id
@@ -385,6 +398,19 @@ def run(ctx):
                 ctx.ok('R-UNLIM', '%s:%s' % (q, norm(call)[:40]), where, how)
             else:
                 ctx.violation(Finding('R-UNLIM', rp, q, stmt, 'dimension %s survives from %s but is re-created without its unlimited flag' % (norm(call.args[0]), s)))
+        # copyDimension(<dimension object>, key=K): the flag that is copied is that of the object, so the object must be dimension K itself
+        for c in [c for c in walk_expr(fn) if isinstance(c, ast.Call) and isinstance(c.func, ast.Attribute) and c.func.attr == 'copyDimension' and c.args and kw(c, 'key') is not None]:
+            src_ = c.args[0]
+            if isinstance(src_, ast.Name):
+                defs = [s2 for s2 in iter_stmts(fn.body) if isinstance(s2, ast.Assign) and len(s2.targets) == 1 and isinstance(s2.targets[0], ast.Name)
+                        and s2.targets[0].id == src_.id and s2.lineno < c.lineno]
+                src_ = defs[-1].value if defs else None
+            if isinstance(src_, ast.Subscript) and norm(src_.value).endswith('.dimensions'):
+                if norm(src_.slice) == norm(kw(c, 'key')):
+                    ctx.ok('R-UNLIM', '%s:%s' % (q, norm(c)[:40]), where, 'dimension %s copied from the dimension of that name' % norm(kw(c, 'key')))
+                else:
+                    ctx.violation(Finding('R-UNLIM', rp, q, api.stmt_of(c), 'dimension %s of the result is copied from the dimension object %s: its unlimited flag is that of another dimension'
+                                          % (norm(kw(c, 'key')), norm(src_))), oid='%s:%s' % (q, norm(c)[:40]))
         ncd = sum(1 for c in walk_expr(fn) if isinstance(c, ast.Call) and isinstance(c.func, ast.Attribute) and c.func.attr in ('copyDimension', 'addDimensions'))
         if ncd or sites:
             ctx.ok('R-UNLIM', '%s: dimensions' % q, where, '%d copyDimension/addDimensions calls (flag kept by the verified primitive), %d raw createDimension' % (ncd, len(sites)))
